@@ -144,6 +144,12 @@ class NodeMeta(type):
                     if not key.isidentifier() or keyword.iskeyword(key):
                         # NOTE: Since these keys are not part of signature validation,
                         # we have to check ourselves if any args follow them.
+                        # And same as Python, the same key cannot be given twice,
+                        # e.g. `fn(**{"a-b": 1}, **{"a-b": 2})`
+                        if key in invalid_kwargs:
+                            raise TypeError(
+                                f"Invalid parameters for tag '{self.tag}': got multiple values for argument '{key}'"
+                            )
                         invalid_kwargs[key] = resolved_param.value
                         did_see_special_kwarg = True
                     else:
